@@ -6,13 +6,54 @@ import json, subprocess, sys
 PROPS = [json.loads(l)["id"] for l in open("/verif/properties.jsonl")]
 
 # property -> (claimed?, level text, level note, technique, design ref)  or  reason for not_applicable
+TECH = "contract-based deductive verification of the real code: VCs generated from go/ssa by the home-made engine tgvc, discharged by z3/cvc5"
 CLAIMED = {
+ "C01": dict(
+   text="Per-operation clauses only (no whole-language simulation proof): deductive proof for all inputs that every arithmetic / comparison arm of Int, Float, Char, String, Time BinaryOp equals the spec written from docs/operators.md, that unsupported pairs yield ErrInvalidOperator, that + on arrays/bytes returns the specified elements in storage owned by the result, and that append() follows its contract; every implementation refines the interface-level contract of Object.BinaryOp.",
+   note="Not decided: control flow, scoping, calls, parser, composition of operations (see DESIGN.md). Assumed: go/ssa, tgvc encoder, solvers; integer division by zero is a panic site (not an error) and is listed in the evidence.",
+   ref="DESIGN.md §4 C01"),
+ "C02": dict(
+   text="VM side only: step contracts on the real dispatch loop (*VM).run prove for every opcode arm and all machine states that the VM consumes exactly the operand bytes the table parser.OpcodeOperands declares (read from source each run), moves the operand stack by the specified amount, and leaves frames consistent on call; an unknown opcode never continues.",
+   note="Compile-side clauses (operand validity at emit sites, stack balance per function, jump targets) are not covered yet. Bounds checks of run are path assumptions (mode panics-allowed).",
+   ref="DESIGN.md §4 C02"),
+ "C06": dict(
+   text="String/bytes limits as a write-site inventory: every SSA store to String.Value / Bytes.Value in package tengo is an obligation len <= MaxStringLen / MaxBytesLen (field invariant assumed at loads, proved at stores); allocation accounting, the tracked-opcode table, the limit error and the frame limit are step contracts on (*VM).run.",
+   note="Format (fmt port, uses recover) has an assumed limit clause; Compiler.Compile's literal arms are inventoried but not verified; map keys are a listed known finding. Operand-stack overflow relies on recover (C05) and is not decided.",
+   ref="DESIGN.md §4 C06"),
+ "C08": dict(
+   text="Frames only (no interleaving model): every method of every value type in /repo that a run can invoke on shared constants (TypeName, String, BinaryOp, IsFalsy, Equals, Copy, CanIterate, CanCall) is proved to write no pre-existing memory; writes of the String rune cache are inventoried (two known findings).",
+   note="Data-race freedom over all schedules is a meta-argument on top of these frames and is not decided; Compiled.Clone / lock discipline not covered yet.",
+   ref="DESIGN.md §4 C08"),
+ "C09": dict(
+   text="Frame and freshness obligations on the real code: +, copy, append on immutable arrays/maps return storage disjoint from the operand and write nothing that existed before; slicing an immutable array in the VM returns fresh storage (step contract); Copy of every container copies every mutable element.",
+   note="freeze / export emission / builtin module tables not covered yet.",
+   ref="DESIGN.md §4 C09"),
  "C10": dict(
-   text="Deductive proof, for all inputs, that every comparison / equality / truthiness arm of the real value types equals one spec function written from the statement and the docs tables (spec/10_values.smt2); every implementation of Object.BinaryOp/Equals/IsFalsy in /repo is proved to refine the interface-level contract. The laws themselves are lemmas over that spec.",
-   note="Assumed: go/ssa translation, tgvc encoder, SMT solvers; package time modelled as abstract instants; strings as an uninterpreted ordered sort; container equality/copy clauses not yet covered (see evidence not_decided).",
-   technique="contract-based deductive verification (home-made VC generator over go/ssa, z3/cvc5)", ref="DESIGN.md §4 C10"),
+   text="Deductive proof, for all inputs, that every comparison / equality / truthiness arm of the real value types equals one spec function written from the statement and the docs tables (spec/10_values.smt2); every implementation of Object.BinaryOp/Equals/IsFalsy/Copy in /repo is proved to refine the interface-level contract; Copy contracts with loop invariants for all containers. The laws themselves are lemmas over that spec (spec/lemmas/C10_*).",
+   note="Assumed: package time modelled as abstract instants; strings as an uninterpreted ordered sort; container Equals and the conversion builtins not covered yet.",
+   ref="DESIGN.md §4 C10"),
+ "C11": dict(
+   text="VM side: step contracts proving that Get/Set/Define of the global, local and free-variable families read and write one abstract cell (through the *ObjectPtr box when present, preserving box identity), for all machine states.",
+   note="The compiler's choice of family per scope and the program-transformation equivalences are not decided.",
+   ref="DESIGN.md §4 C11"),
+ "C14": dict(
+   text="Error identity: step contracts proving that every error exit of the dispatch loop stores exactly the error a callee returned (BinaryOp, IndexGet, native Call) unless it is one of the sentinels it rewrites, and that ErrObjectAllocLimit / ErrStackOverflow are set only in their situations.",
+   note="Source positions (SourcePos, Run's trace loop, statement attribution) not covered yet.",
+   ref="DESIGN.md §4 C14"),
+ "C16": dict(
+   text="Step contracts on the OpCall arm: a call that keeps the frame count and restarts at ip -1 happens only when the next instruction is RET (or POP; RET), keeps curFrame and the instruction stream, and a non-tail call pushes exactly one frame with the saved ip inside the call instruction.",
+   note="Simultaneous parameter update and agreement with the equivalent loop are not covered yet.",
+   ref="DESIGN.md §4 C16"),
 }
-NA = {}
+for v in CLAIMED.values():
+    v["technique"] = TECH
+NA = {
+ "C05": "not applicable to this technique: containment of panics by a deferred recover inside a goroutine, handed over a channel under select, is outside any function-contract verifier available here (DESIGN.md §4 C05)",
+ "C07": "not applicable to this technique: quantifies over schedules, real-time delay and goroutine leaks; no thread model in contract-based deductive verification (DESIGN.md §4 C07)",
+ "C17": "not applicable to this technique: the oracle is the executable Go fmt package; no contract within reach states agreement with it other than re-implementing fmt as the spec (DESIGN.md §4 C17)",
+ "C18": "not applicable to this technique: the oracle is encoding/json; validity is defined by a copied scanner state machine (DESIGN.md §4 C18)",
+}
+
 
 def main():
     hooks = subprocess.run(["git","-C","/repo","log","--format=%H %s"],capture_output=True,text=True).stdout.strip().splitlines()
